@@ -123,7 +123,7 @@ def _fault_sig(events):
 
 def run_mirsym_property(pid, tier, seed, harness_files, relevant_codes, outcome_kinds=("abort", "unwound", "memory-error"),
                         entry_filter=None, opts=None, expect_marks=("9003",), assumptions=(), bounds=None, design_ref=None,
-                        extra_coverage=None, per_entry_expect=None, title=""):
+                        extra_coverage=None, per_entry_expect=None, title="", post=None):
     """runs the exploration, native confirmation and validation; writes evidence; returns exit code"""
     t0 = time.time()
     opts = dict(opts or {})
@@ -293,12 +293,20 @@ def run_mirsym_property(pid, tier, seed, harness_files, relevant_codes, outcome_
         }
         if extra_coverage:
             cov.update(extra_coverage)
+        post_rc = 0
+        if post is not None:
+            pcov, post_rc, plines = post(results, run)
+            cov.update(pcov)
+            for l in plines:
+                print(l)
+            if post_rc == 1:
+                n_new += 1
         common.write_evidence(pid, tier, seed, cov, list(assumptions), wall, n_new)
         common.log("[%s] paths=%d steps=%d queries=%d validated=%d confirmed=%d new=%d inconclusive=%d wall=%.1fs" % (
             pid, agg["paths"], agg["steps"], agg["queries"], validated, len(confirmed), n_new, len(inconclusive), wall))
         if n_new:
             return 1
-        if inconclusive or mismatches or unconfirmed or vacuous:
+        if inconclusive or mismatches or unconfirmed or vacuous or post_rc == 2:
             return 2
         return 0
     finally:
